@@ -161,8 +161,8 @@ func fuzzCases(seed int64, nrand int) []fcase {
 			switch rng.Intn(3) {
 			case 0:
 				p := rng.Intn(len(b))
-				if p >= 4 && p < 8 {
-					p = 8
+				if p >= 4 && p < 8 { // the transaction id is filled in by the scripted tracker
+					p = p - 4
 				}
 				b[p] = byte(rng.Intn(256))
 			case 1:
